@@ -1,9 +1,10 @@
 (** Round 3: what the Builder writes for a qualified name reads back, under the dialect's
     own lexical rule, as exactly the chain of names -- the qualifier is ONE quoted
-    identifier -- for names free of the closing quote character; it does not for a name
-    that contains it (Builder.Ident does not double it); and the PostgreSQL planner's
-    second spelling ([%q] in typeIdent / schemaPrefix) names the same identifier exactly for
-    names strconv.Quote copies unchanged. *)
+    identifier -- for EVERY name (code with fix C16-ident-double-quote-char: Builder.Ident
+    doubles the quote character); the raw spelling of the code before the fix did so exactly
+    for names free of the closing quote character; and the PostgreSQL planner's second
+    spelling ([%q] in typeIdent / schemaPrefix) names the same identifier exactly for names
+    strconv.Quote copies unchanged. *)
 From Coq Require Import List NArith Bool Arith Lia.
 From Atlas Require Import Base.Bytes Qual.Builder Qual.BuilderProofs Qual.Lexq.
 Import ListNotations.
@@ -87,7 +88,7 @@ Section Chain.
   Qed.
 End Chain.
 
-Lemma wchain_render qo qc l : wchain qo qc (fun n => n) l = render_chain qo qc l.
+Lemma wchain_raw qo qc l : wchain qo qc (fun n => n) l = raw_chain qo qc l.
 Proof.
   induction l as [|n l IH]; [reflexivity|].
   destruct l as [|n2 l]; [reflexivity|].
@@ -96,7 +97,7 @@ Proof.
   rewrite IH. reflexivity.
 Qed.
 
-Lemma wchain_quote qo qc l : wchain qo qc (escape_ident qc) l = quote_chain qo qc l.
+Lemma wchain_render qo qc l : wchain qo qc (escape_ident qc) l = render_chain qo qc l.
 Proof.
   induction l as [|n l IH]; [reflexivity|].
   destruct l as [|n2 l]; [reflexivity|].
@@ -113,27 +114,27 @@ Proof.
   rewrite app_length. simpl length at 2. simpl length at 1. simpl in IH. simpl. lia.
 Qed.
 
-(** the raw spelling (what Builder.Ident writes) reads back for quote-free names *)
+(** what Builder.Ident writes reads back for EVERY name *)
 Theorem render_chain_reads_back qo qc l post :
-  qc <> DOT -> l <> [] -> Forall (quote_free qc) l -> chain_ends qo qc post ->
+  qc <> DOT -> l <> [] -> chain_ends qo qc post ->
   lex_chain qo qc (render_chain qo qc l ++ post) = Some (l, post).
 Proof.
-  intros Hd Hne HF Hp. unfold lex_chain. rewrite <- wchain_render.
-  apply (lex_wchain qo qc (fun n => n) (quote_free qc) Hd); try assumption.
-  - intros n rest Hn Hr. apply read_ident_raw; assumption.
-  - rewrite app_length. pose proof (wchain_length qo qc (fun n => n) l). lia.
-Qed.
-
-(** the correct spelling reads back for EVERY name: the specification is satisfiable *)
-Theorem quote_chain_reads_back qo qc l post :
-  qc <> DOT -> l <> [] -> chain_ends qo qc post ->
-  lex_chain qo qc (quote_chain qo qc l ++ post) = Some (l, post).
-Proof.
-  intros Hd Hne Hp. unfold lex_chain. rewrite <- wchain_quote.
+  intros Hd Hne Hp. unfold lex_chain. rewrite <- wchain_render.
   apply (lex_wchain qo qc (escape_ident qc) (fun _ => True) Hd); try assumption.
   - intros n rest _ Hr. apply read_ident_escaped; assumption.
   - apply Forall_forall. intros; exact I.
   - rewrite app_length. pose proof (wchain_length qo qc (escape_ident qc) l). lia.
+Qed.
+
+(** the raw spelling (the code before the fix) reads back for quote-free names *)
+Theorem raw_chain_reads_back qo qc l post :
+  qc <> DOT -> l <> [] -> Forall (quote_free qc) l -> chain_ends qo qc post ->
+  lex_chain qo qc (raw_chain qo qc l ++ post) = Some (l, post).
+Proof.
+  intros Hd Hne HF Hp. unfold lex_chain. rewrite <- wchain_raw.
+  apply (lex_wchain qo qc (fun n => n) (quote_free qc) Hd); try assumption.
+  - intros n rest Hn Hr. apply read_ident_raw; assumption.
+  - rewrite app_length. pose proof (wchain_length qo qc (fun n => n) l). lia.
 Qed.
 
 (** on quote-free names the two spellings coincide *)
@@ -145,16 +146,18 @@ Proof.
   apply N.eqb_neq in Hc. rewrite Hc. f_equal. apply IH. intros I. apply Hf. right. exact I.
 Qed.
 
+Lemma render_ident_quote_free o c n : quote_free c n -> render_ident o c n = raw_ident o c n.
+Proof. intros H. unfold render_ident, raw_ident. rewrite (escape_quote_free c n H). reflexivity. Qed.
+
 (** * One qualifying call, end to end: [mayQualify] under qualifier [q] writes a text that
     the server reads as exactly [q :: top :: children]. *)
 Theorem mayQualify_reads_back b s top children q :
   bschema b = Some q -> nonempty q -> nonempty top -> Forall nonempty children ->
   qc b <> DOT -> qc b <> SP ->
-  Forall (quote_free (qc b)) (q :: top :: children) ->
   exists pre, out (mayQualify b s top children) = out b ++ pre /\
     lex_chain (qo b) (qc b) pre = Some (q :: top :: children, [SP]).
 Proof.
-  intros Hb Hq Ht Hc Hd Hsp HF.
+  intros Hb Hq Ht Hc Hd Hsp.
   destruct (mayQualify_spec b s top children Ht Hc) as (_ & _ & _ & _ & _ & _ & Ho).
   exists (render_chain (qo b) (qc b) (chain_of (bschema b) s top children) ++ [SP]).
   split; [exact Ho|].
@@ -167,8 +170,8 @@ Qed.
 Definition w_q : bytes := [97; 34; 98].      (* a, double quote, b *)
 Definition w_t : bytes := [116].             (* t *)
 Lemma raw_quote_refuted :
-  lex_chain 34 34 (render_chain 34 34 [w_q; w_t] ++ [SP]) <> Some ([w_q; w_t], [SP]) /\
-  lex_chain 34 34 (quote_chain 34 34 [w_q; w_t] ++ [SP]) = Some ([w_q; w_t], [SP]).
+  lex_chain 34 34 (raw_chain 34 34 [w_q; w_t] ++ [SP]) <> Some ([w_q; w_t], [SP]) /\
+  lex_chain 34 34 (render_chain 34 34 [w_q; w_t] ++ [SP]) = Some ([w_q; w_t], [SP]).
 Proof. split; [vm_compute; discriminate|vm_compute; reflexivity]. Qed.
 
 (** * strconv.Quote copies plain names unchanged *)
@@ -190,9 +193,9 @@ Proof.
   rewrite L, G. reflexivity.
 Qed.
 
-Lemma strconvQuote_plain s : plain s -> strconvQuote s = render_ident DQ DQ s.
+Lemma strconvQuote_plain_raw s : plain s -> strconvQuote s = raw_ident DQ DQ s.
 Proof.
-  intros H. unfold strconvQuote, render_ident. f_equal. f_equal.
+  intros H. unfold strconvQuote, raw_ident. f_equal. f_equal.
   induction s as [|c s IH]; [reflexivity|].
   unfold plain in H. simpl in H. apply andb_true_iff in H as [Hc Hs].
   simpl. rewrite (quoteGo_plain_byte c Hc). simpl. f_equal. apply IH. exact Hs.
@@ -203,6 +206,12 @@ Proof.
   intros H I. unfold plain in H. rewrite forallb_forall in H. specialize (H _ I).
   unfold plain_byte in H. rewrite !andb_true_iff, !negb_true_iff in H.
   destruct H as [[_ H] _]. unfold DQ in H. simpl in H. discriminate.
+Qed.
+
+Lemma strconvQuote_plain s : plain s -> strconvQuote s = render_ident DQ DQ s.
+Proof.
+  intros H. rewrite (strconvQuote_plain_raw s H).
+  symmetry. apply render_ident_quote_free. apply plain_quote_free. exact H.
 Qed.
 
 (** typeIdent / schemaPrefix write the same identifier as Builder.Table for plain names *)
@@ -222,8 +231,6 @@ Proof.
   - rewrite E. apply render_chain_reads_back.
     + unfold DQ, DOT. discriminate.
     + discriminate.
-    + constructor; [apply plain_quote_free; exact Pq|].
-      constructor; [apply plain_quote_free; exact Pn|constructor].
     + simpl. split; [unfold DQ, SP; discriminate|exact I].
 Qed.
 
